@@ -2,8 +2,10 @@ package mon
 
 import (
 	"fmt"
+	"math"
 	"reflect"
 	"regexp"
+	"sort"
 	"strconv"
 	"strings"
 	"time"
@@ -399,6 +401,13 @@ func (e *emitChecker) matchStruct(node *vmodel.JVal, v reflect.Value) {
 			}
 			continue
 		}
+		if f.Type.Kind() == reflect.Float64 && (math.IsNaN(fv.Float()) || math.IsInf(fv.Float(), 0)) {
+			// JSON has no NaN or infinity: the only faithful things to write are nothing at all for that property
+			if member != nil {
+				e.add(pos, "float", "wrong-json-kind", "a member was written for a non-finite number: "+member.Kind+" "+member.S)
+			}
+			continue
+		}
 		if member == nil {
 			e.add(pos, f.Type.String(), "missing-member", "property is set but no member "+term+" was written")
 			continue
@@ -410,6 +419,59 @@ func (e *emitChecker) matchStruct(node *vmodel.JVal, v reflect.Value) {
 		e.matchAny(pos, member, fv)
 	}
 }
+
+// ---- odd numbers: the ends of every numeric range, and the floats JSON cannot write ----
+
+type oddNumberCase struct {
+	Kind  vmodel.StructKind
+	Field vmodel.Field
+	Name  string
+	Class string
+	Set   func(fv reflect.Value)
+}
+
+var oddNumberCases = func() []oddNumberCase {
+	var out []oddNumberCase
+	for _, k := range vmodel.Kinds {
+		for _, f := range k.Fields() {
+			f := f
+			add := func(name, class string, set func(fv reflect.Value)) {
+				out = append(out, oddNumberCase{k, f, name, class, set})
+			}
+			switch {
+			case f.Type.Kind() == reflect.Float64:
+				for n, x := range map[string]float64{"NaN": math.NaN(), "+Inf": math.Inf(1), "-Inf": math.Inf(-1)} {
+					x := x
+					add(n, "non-finite", func(fv reflect.Value) { fv.SetFloat(x) })
+				}
+				for n, x := range map[string]float64{"-0": math.Copysign(0, -1), "5e-324": 5e-324, "max": math.MaxFloat64, "-max": -math.MaxFloat64, "1e21": 1e21, "1e-7": 1e-7, "0.1+0.2": 0.1 + 0.2} {
+					x := x
+					add(n, "finite-edge", func(fv reflect.Value) { fv.SetFloat(x) })
+				}
+			case f.Type == vmodel.DurT:
+				for n, x := range map[string]int64{"1ns": 1, "-1ns": -1, "max": math.MaxInt64, "min": math.MinInt64, "1h": int64(time.Hour)} {
+					x := x
+					add(n, "duration-edge", func(fv reflect.Value) { fv.SetInt(x) })
+				}
+			case f.Type.Kind() == reflect.Int64:
+				for n, x := range map[string]int64{"max": math.MaxInt64, "min": math.MinInt64, "-1": -1} {
+					x := x
+					add(n, "int-edge", func(fv reflect.Value) { fv.SetInt(x) })
+				}
+			case f.Type.Kind() == reflect.Uint:
+				for n, x := range map[string]uint64{"max": math.MaxUint64, "2^63": 1 << 63, "1": 1} {
+					x := x
+					add(n, "uint-edge", func(fv reflect.Value) { fv.SetUint(x) })
+				}
+			}
+		}
+	}
+	sort.Slice(out, func(i, j int) bool {
+		a, b := out[i], out[j]
+		return a.Kind.Name+a.Field.Term+a.Name < b.Kind.Name+b.Field.Term+b.Name
+	})
+	return out
+}()
 
 // ---- hostile strings ----
 
@@ -645,6 +707,18 @@ func init() {
 						c.Sample(map[string]any{"case": label})
 					}
 					emitAll(c, x, label, "degenerate", "", "")
+				}},
+				{Name: "odd-numbers", N: len(oddNumberCases), Exhaustive: true, Run: func(c *Ctx, idx int) {
+					oc := oddNumberCases[idx]
+					p := oc.Kind.New()
+					v := reflect.ValueOf(p).Elem()
+					v.FieldByName("ID").Set(reflect.ValueOf(vocab.IRI("https://example.com/numbers")))
+					v.FieldByName("Type").Set(reflect.ValueOf(vocab.ActivityVocabularyType(oc.Kind.SpecificType())))
+					oc.Set(v.Field(oc.Field.Index))
+					label := fmt.Sprintf("%s.%s := %s", oc.Kind.Name, oc.Field.Term, oc.Name)
+					c.Distinct("number|"+label, true)
+					c.Count("odd-numbers", 1)
+					emitAll(c, p, label, "number:"+oc.Class, "", "")
 				}},
 				{Name: "hostile-single", N: len(allStringPos) * nh * 2, Exhaustive: true, Run: func(c *Ctx, idx int) {
 					sp := allStringPos[idx/(nh*2)]
